@@ -229,7 +229,9 @@ func (s IndexStep) Apply(val Value) (Value, error) {
 	// apply the correct marks for the result.
 	has, _ := val.HasIndex(s.Key).Unmark()
 	if !has.IsKnown() {
-		return UnknownVal(val.Type().ElementType()), nil
+		// Index knows the result type for every indexable type (a tuple has
+		// no single element type) and keeps the marks of val and key.
+		return val.Index(s.Key), nil
 	}
 	if !has.True() {
 		return NilVal, errors.New("value does not have given index key")
